@@ -5,14 +5,14 @@ Require Import LV.Base LV.VV LV.Path LV.Prog.
 Inductive action :=
   | AOpaque | ALoad | AStore | ARmw | ARefInc | ARefDec | AInspect
   | ASend | ARecv | ARead | AWrite
-  | AOpaqueTry | ATryRead | ATryWrite.
+  | AOpaqueTry | ATryRead | ATryWrite | ATryRecv.
 
 Definition action_eqb (a b : action) : bool :=
   match a, b with
   | AOpaque, AOpaque | ALoad, ALoad | AStore, AStore | ARmw, ARmw
   | ARefInc, ARefInc | ARefDec, ARefDec | AInspect, AInspect
   | ASend, ASend | ARecv, ARecv | ARead, ARead | AWrite, AWrite
-  | AOpaqueTry, AOpaqueTry | ATryRead, ATryRead | ATryWrite, ATryWrite => true
+  | AOpaqueTry, AOpaqueTry | ATryRead, ATryRead | ATryWrite, ATryWrite | ATryRecv, ATryRecv => true
   | _, _ => false
   end.
 
@@ -58,7 +58,8 @@ Record notify_state := mkNotify {
 
 Record chan_state := mkChan {
   ch_cnt : nat; ch_last_send : option access; ch_last_recv : option access;
-  ch_sender_sync : vv; ch_recv_sync : list vv }.
+  ch_sender_sync : vv; ch_recv_sync : list vv;
+  ch_last_try_recv : option access }.
 
 Inductive refmod := RMInc | RMDec.
 Record arc_state := mkArc {
@@ -148,7 +149,11 @@ Definition last_dependent_accesses (o : object) (act : action) : option (list ac
   | ONotify s => Some (opt_list (nt_last s))
   | ORwLock s => Some (opt_list (rw_last s))
   | OChannel s =>
-      Some (opt_list match act with ASend => ch_last_send s | _ => ch_last_recv s end)
+      Some match act with
+           | ASend => opt_list (ch_last_send s) ++ opt_list (ch_last_try_recv s)
+           | ATryRecv => opt_list (ch_last_recv s) ++ opt_list (ch_last_send s)
+           | _ => opt_list (ch_last_recv s)
+           end
   | _ => None
   end.
 
@@ -173,8 +178,9 @@ Definition set_last_access (o : object) (act : action) (tid : nat) (path_id : na
   | ORwLock s => ORwLock (mkRw (rw_lock s) acc (rw_sync s))
   | OChannel s =>
       match act with
-      | ASend => OChannel (mkChan (ch_cnt s) acc (ch_last_recv s) (ch_sender_sync s) (ch_recv_sync s))
-      | _ => OChannel (mkChan (ch_cnt s) (ch_last_send s) acc (ch_sender_sync s) (ch_recv_sync s))
+      | ASend => OChannel (mkChan (ch_cnt s) acc (ch_last_recv s) (ch_sender_sync s) (ch_recv_sync s) (ch_last_try_recv s))
+      | ATryRecv => OChannel (mkChan (ch_cnt s) (ch_last_send s) acc (ch_sender_sync s) (ch_recv_sync s) acc)
+      | _ => OChannel (mkChan (ch_cnt s) (ch_last_send s) acc (ch_sender_sync s) (ch_recv_sync s) (ch_last_try_recv s))
       end
   | o => o
   end.
